@@ -3,6 +3,7 @@ mod c10;
 mod c11;
 mod consumer;
 mod c13;
+mod c14;
 mod c15;
 mod c16;
 mod c18;
@@ -45,6 +46,7 @@ fn main() {
         "c16" => c16::run(&out, &tier, seed, shards, replay),
         "c15" => c15::run(&out, &tier, seed, shards, replay),
         "gen" => gen::run(&out, &tier, seed, shards, replay),
+        "c14" => c14::run(&out, &tier, seed, shards, replay),
         "c11" => c11::run(&out, &tier, seed, shards, replay),
         other => {
             eprintln!("unknown command {}", other);
